@@ -130,7 +130,7 @@ pub fn run(args: &Args) -> i32 {
     );
     ev.floor("diff", "A!=B", 0.5);
     ev.floor("diff", "shared_object_changed", 0.05);
-    let cases = args.cases(40_000, 600_000);
+    let cases = args.cases(160_000, 2_400_000);
     engine::run_pbt(&mut ev, args, "diff", cases, strategy, check);
     ev.finish()
 }
